@@ -50,7 +50,7 @@
    and the message may be as long as wf_hist allows. *)
 From stdpp Require Import list.
 From Coq Require Import ZArith Lia.
-From Verif Require Import S2.Model C01.Spec C02.Spec C02.SpecH C02.Truncated S2.Basics S2.Invariant C01.Proofs C02.Proofs C02.ProofsH.
+From Verif Require Import S2.Model C01.Spec C02.Spec C02.SpecH C02.Truncated S2.Basics S2.Invariant S2.Faults C01.Proofs C02.Proofs C02.ProofsH.
 Open Scope Z_scope.
 
 (* a headers message changes the chain only in a legal way (or by a truncated
@@ -207,6 +207,49 @@ Theorem C02_work_monotone : forall P gfh ops p now msg,
   reorg_truncated_atb P now (chain s) (chain (step P s o)) msg = true.
 Proof. exact work_monotone. Qed.
 Print Assumptions C02_work_monotone.
+
+(* ---------- after store faults ----------
+   The same four statements for a headers message handled WITHOUT a fault in a
+   state reached by a history that may contain store faults: failed header
+   writes (OHeadersF) and failed rollbacks with the crash and restart they
+   cause (OHeadersR) — [wf_hist_f] of C01/Proofs.v instead of [wf_hist]. *)
+Theorem C02_only_legal_changes_after_store_faults : forall P gfh ops o,
+  wf_params P -> no_collision P (ops ++ [o]) -> wf_hist_f P (ops ++ [o]) -> op_ok P o ->
+  let s := run P (init_state P gfh) ops in
+  match o with
+  | OHeaders _ now msg =>
+      legal (classify P (chain s) (chain (step P s o)) msg) = true \/
+      reorg_truncated_atb P now (chain s) (chain (step P s o)) msg = true
+  | _ => chain (step P s o) = chain s
+  end.
+Proof. exact only_legal_changes_f. Qed.
+Print Assumptions C02_only_legal_changes_after_store_faults.
+
+Theorem C02_reorg_conditions_after_store_faults : forall P gfh ops p now msg,
+  let o := OHeaders p now msg in
+  wf_params P -> no_collision P (ops ++ [o]) -> wf_hist_f P (ops ++ [o]) ->
+  let s := run P (init_state P gfh) ops in
+  reorg_conditions P now (chain s) (chain (step P s o)) msg.
+Proof. exact reorg_conditions_f. Qed.
+Print Assumptions C02_reorg_conditions_after_store_faults.
+
+Theorem C02_valid_extension_adopted_after_store_faults : forall P gfh ops p now msg e,
+  let o := OHeaders p now msg in
+  wf_params P -> no_collision P (ops ++ [o]) -> wf_hist_f P (ops ++ [o]) ->
+  let s := run P (init_state P gfh) ops in
+  must_adopt P now (chain s) msg = Some e -> chain (step P s o) = e.
+Proof. exact valid_extension_adopted_f. Qed.
+Print Assumptions C02_valid_extension_adopted_after_store_faults.
+
+Theorem C02_work_monotone_after_store_faults : forall P gfh ops p now msg,
+  let o := OHeaders p now msg in
+  wf_params P -> no_collision P (ops ++ [o]) -> wf_hist_f P (ops ++ [o]) ->
+  let s := run P (init_state P gfh) ops in
+  work_of (chain (step P s o)) >= work_of (chain s) \/
+  classify P (chain s) (chain (step P s o)) msg = CutAtCheckpoint \/
+  reorg_truncated_atb P now (chain s) (chain (step P s o)) msg = true.
+Proof. exact work_monotone_f. Qed.
+Print Assumptions C02_work_monotone_after_store_faults.
 
 (* the exception is real: a reachable state and a message satisfying all
    hypotheses where the change is not legal and total work decreases
